@@ -30,7 +30,7 @@ registry.register("C12", {
     "classify": classify,
     "components": [
         {"name": "cs", "gen": sendlib.gen_cs, "fixed": sendlib.fixed_cs, "quick": 6000, "thorough": 200000,
-         "valid": sendlib.valid, "nontrivial": lambda case, out: sum(1 for i in range(len(out) - 1) if out[i] == 3 and out[i + 1] == 1) >= 2},
+         "valid": sendlib.valid, "nontrivial": lambda case, out: sendlib.cs_copies(case, out) >= 2},
         {"name": "st", "gen": sendlib.gen_st, "fixed": sendlib.fixed_st, "quick": 8000, "thorough": 300000,
          "valid": sendlib.valid, "nontrivial": sendlib.nontrivial_st},
         {"name": "sm", "gen": sendlib.gen_sm, "fixed": sendlib.fixed_sm, "quick": 6000, "thorough": 200000, "model": False,
